@@ -19,10 +19,10 @@ SIM_UNIT = "group operations"
 BUDGET = {"quick": {"runs": 1400, "wall": 70}, "thorough": {"runs": 12000, "wall": 2400}}
 SHRINK_LISTS = ("ops",)
 PROBES = {"C03": ["history>=1000", "history>=10000", "act4:w=0", "float32", "batched", "scale-steered",
-                  "assoc", "act-compose", "identity", "inverse", "reinit-from-identity", "logscale>8", "identity_-through-view:[::2]", "identity_-through-view:[:, 0]", "operand:expanded", "operand:broadcast", "operand:non-contiguous", "operand:deepcopied", "translation-rebased"]}
+                  "assoc", "act-compose", "identity", "inverse", "reinit-from-identity", "logscale>8", "identity_-through-view:[::2]", "identity_-through-view:[:, 0]", "operand:expanded", "operand:broadcast", "operand:non-contiguous", "operand:deepcopied", "translation-rebased", "operand:exact-half-turn", "act-operator-forms"]}
 TS = float(os.environ.get("PPSIM_TOLSCALE", "1"))
 UPDATES = ("mulr", "mull", "inv", "add_", "plus", "retr", "idl", "idr", "reinit", "ident_view")
-PROBE_OPS = ("act3", "act4", "assoc", "actcomp", "access", "invlaw")
+PROBE_OPS = ("act3", "act4", "assoc", "actcomp", "access", "invlaw", "actop")
 
 
 def generate(seed, tier, prop="C03"):
@@ -209,6 +209,16 @@ def execute(plan, prop, out, tr):
                 out.probe("scale-steered")
             if op in ("mulr", "mull"):
                 Y = lie(a.to(dtype), fam, False).Exp()
+                if rng.H(s, "halfturn", i) % 17 == 0:
+                    # an exact half turn about a coordinate axis (scalar part exactly 0), unit scale
+                    raw = Y.tensor().clone()
+                    qs = 3 if has_t else 0
+                    raw[..., qs:qs + 4] = 0.0
+                    raw[..., qs + (rng.H(s, "axis", i) % 3)] = 1.0
+                    if has_s:
+                        raw[..., -1] = 1.0
+                    Y = pp.LieTensor(raw, ltype=X.ltype)
+                    out.probe("operand:exact-half-turn")
                 lay = i % 5
                 if bs and lay == 1:
                     # one fresh operand broadcast against the whole batch (stride-0 expand)
@@ -351,6 +361,24 @@ def execute(plan, prop, out, tr):
                 if not e <= CP * eps * nX * (1 + np.abs(npd(p)).max()):
                     raise Violation("C03.act", "op #%d Act on homogeneous 4-vectors (w=%s) differs from matrix multiplication by "
                                     "%.3e" % (i, "0" if i % 2 == 0 else "free", e), i, "act4")
+            elif op == "actop":
+                # the operator forms X @ p and X * p on clouds of k points (k = 3, 4 coincide with the matrix shapes)
+                k_ = 3 + (i % 3)
+                d_ = 3 if (i // 3) % 2 else 4
+                pts = rng.randn(s, ("g", i, "cloud"), bs + (k_, d_), dtype, 2.0)
+                Xb_ = X.unsqueeze(-2) if bs else X
+                want = np.einsum("...ij,...kj->...ki", MX if d_ == 4 else MX[..., :3, :3], npd(pts))
+                if d_ == 3:
+                    want = want + MX[..., None, :3, 3]
+                for nm, got in (("@", npd(Xb_ @ pts)), ("*", npd(Xb_ * pts)), ("Act", npd(Xb_.Act(pts)))):
+                    if got.shape != want.shape:
+                        raise Violation("C03.act", "op #%d X %s p on a cloud of %d %d-vectors returned shape %s, expected %s" %
+                                        (i, nm, k_, d_, got.shape, want.shape), i, "actop:shape")
+                    e = np.abs(got - want).max()
+                    if not e <= CP * eps * nX * (1 + np.abs(npd(pts)).max()):
+                        raise Violation("C03.act", "op #%d X %s p on a cloud of %d %d-vectors differs from matrix multiplication by "
+                                        "%.3e" % (i, nm, k_, d_, e), i, "actop:" + nm)
+                out.probe("act-operator-forms")
             elif op == "assoc":
                 Y, Z = grp(i, "y"), grp(i, "z")
                 L, Rr = npd((X @ Y) @ Z), npd(X @ (Y @ Z))
